@@ -106,3 +106,39 @@ def aug_fn(s, k):
 
 def second(a, b):
     return b + 0 * a
+
+
+# functions at the edge of the translatable subset: generation may refuse them, but whatever it emits must compute
+# what the function computes (each binds a name that is already bound, so dropping the statement stays translatable)
+def ann_rebind_fn(s, k):
+    k: float = 2 * k
+    return k * s
+
+
+def walrus_rebind_fn(s, k):
+    return (k := 2 * k) * s + k
+
+
+def unpack_call_fn(s, k):
+    s, k = divmod(s * k, 0.75)
+    return s + k
+
+
+def chained_rebind_fn(s, k):
+    s = k = s * k
+    return s + 2 * k
+
+
+def nested_def_fn(s, k):
+    def k2(q):
+        return q * 3
+
+    return k2(k) * s
+
+
+def aug_arg_fn(s, k):
+    k *= 2
+    return k * s
+
+
+EDGE_FNS = [ann_rebind_fn, walrus_rebind_fn, unpack_call_fn, chained_rebind_fn, nested_def_fn, aug_arg_fn]
